@@ -80,11 +80,11 @@ def gen_inputs(ctx):
     def add(kind, files, root):
         wss.append(L.mk_ws(files, root, ctx.rng, hover=True, completion=True, hints="sample"))
         kinds.append(kind)
-    n_base = 120 if ctx.quick else 1000
+    n_base = 120 if ctx.quick else 2400
     for kind, files, root in L.derived_workspaces(g, ctx.rng, n_base, 4, 6, 1):
         add(kind, files, root)
     # every token prefix of a few programs
-    for _ in range(10 if ctx.quick else 120):
+    for _ in range(10 if ctx.quick else 300):
         t = g.program(ctx.rng.randrange(2, 5))
         for p in symgen.prefixes(t, ctx.rng, 10 ** 6):
             add("every-prefix", [["/w/main.td", p]], "/w/main.td")
